@@ -5,6 +5,7 @@
 -/
 import ErgoProofs.Lemmas.ReachInv
 import ErgoProofs.Lemmas.PropsAux
+import ErgoProofs.Lemmas.ViewThm
 namespace Ergo
 
 /-- a command that exits non-zero wrote nothing: there is no state for a success value to misreport -/
@@ -42,5 +43,85 @@ theorem C16_prune_reply_true (log : List Event) (g : Graph) (hg : replayRaw log 
 theorem C16_no_write_means_error (log : List Event) (env : Env) (req : Request) (h : (runCmd log env req).write = none)
     (hne : ∀ e, req ≠ .claimOldest e) : (runCmd log env req).err ≠ none :=
   no_write_means_error log env req h hne
+
+
+/-! ### the printed values (ErgoModel.View: `replyOf`, `listJson`, `showJson`), tied to the real stdout by T2-cmd / T2-view -/
+
+/-- `set --json` that succeeded prints the state and claimant the task has after the command -/
+theorem C16_set_reply_is_next_read (log : List Event) (g : Graph) (hg : replayRaw log = .ok g) (hinv : AllInv g)
+    (env : Env) (henv : EnvOK g env) (id : Id) (i : RawInput)
+    (h : (runCmd log env (.set id i)).err = none) :
+    ∃ g' t', replay (runCmd log env (.set id i)).log = .ok g' ∧ g'.find? id = some t' ∧
+      replyOf env (.set id i) (runCmd log env (.set id i)) = some (.set id (updatedFields i) t'.st t'.claimedBy) :=
+  set_reply log g hg hinv env henv id i h
+
+/-- `claim <id> --json` that succeeded: the task is `doing`, claimed by the caller, and the reply says so -/
+theorem C16_claim_id_reply_is_next_read (log : List Event) (g : Graph) (hg : replayRaw log = .ok g) (hinv : AllInv g)
+    (env : Env) (henv : EnvOK g env) (id : Id)
+    (h : (runCmd log env (.claim id)).err = none) :
+    ∃ g' t', replay (runCmd log env (.claim id)).log = .ok g' ∧ g'.find? id = some t' ∧
+      t'.st = .doing ∧ t'.claimedBy = env.agent ∧
+      replyOf env (.claim id) (runCmd log env (.claim id)) =
+        some (.claimed id t'.epicId .doing t'.title t'.body env.agent (claimedAt t')) :=
+  claim_id_reply log g hg hinv env henv id h
+
+/-- `new task|epic --json`: every field of the reply is the stored item's field (in particular `state` after `new … state=/claim=`) -/
+theorem C16_created_reply_is_next_read (log : List Event) (g : Graph) (hg : replayRaw log = .ok g) (hinv : AllInv g)
+    (env : Env) (henv : EnvOK g env) (i : RawInput) (isTask : Bool)
+    (h : (runCmd log env (if isTask then .newTask i else .newEpic i)).err = none) :
+    let res := runCmd log env (if isTask then .newTask i else .newEpic i)
+    ∃ g' t', replay res.log = .ok g' ∧ res.out.created = some t'.id ∧ g'.find? t'.id = some t' ∧
+      replyOf env (if isTask then .newTask i else .newEpic i) res =
+        some (.created t'.isEpic t'.id t'.uuid t'.epicId t'.st t'.title t'.body t'.createdAt) :=
+  created_reply log g hg hinv env henv i isTask h
+
+/-- `claim --json` (oldest ready): the reply is the head of the ready list as stored afterwards; nothing written ⇔ `no_ready` ⇔ empty list -/
+theorem C16_claim_oldest_reply_is_next_read (log : List Event) (g : Graph) (hg : replayRaw log = .ok g) (hinv : AllInv g)
+    (env : Env) (henv : EnvOK g env) (hag : env.agent ≠ "") (epic : Id)
+    (hw : (runCmd log env (.claimOldest epic)).write ≠ none) :
+    let res := runCmd log env (.claimOldest epic)
+    ∃ t g' t', (readyTasks g epic).head? = some t ∧ replay res.log = .ok g' ∧ g'.find? t.id = some t' ∧
+      t'.st = .doing ∧ t'.claimedBy = env.agent ∧ t'.title = t.title ∧ t'.body = t.body ∧ t'.epicId = t.epicId ∧
+      replyOf env (.claimOldest epic) res = some (.claimed t.id t.epicId .doing t.title t.body env.agent env.now) :=
+  claim_oldest_reply log g hg hinv env henv hag epic hw
+
+theorem C16_no_ready_reply (log : List Event) (g : Graph) (hg : replayRaw log = .ok g) (hinv : AllInv g)
+    (env : Env) (hag : env.agent ≠ "") (epic : Id)
+    (herr : (runCmd log env (.claimOldest epic)).err = none) (hw : (runCmd log env (.claimOldest epic)).write = none) :
+    replyOf env (.claimOldest epic) (runCmd log env (.claimOldest epic)) = some .noReady ∧ readyTasks g epic = [] :=
+  claim_oldest_no_ready log g hg hinv env hag epic herr hw
+
+/-- `prune --json`: `pruned_ids` is the policy's set, dry run or not -/
+theorem C16_prune_reply_is_policy (log : List Event) (g : Graph) (hg : replayRaw log = .ok g) (hinv : AllInv g)
+    (env : Env) (yes : Bool) :
+    replyOf env (.prune yes) (runCmd log env (.prune yes)) = some (.pruned (!yes) (pruneTargets g)) :=
+  prune_reply log g hg hinv env yes
+
+/-- `sequence --json`: every edge the reply lists is in the graph afterwards (link) / absent afterwards (rm) -/
+theorem C16_sequence_reply_is_next_read (log : List Event) (g : Graph) (hg : replayRaw log = .ok g) (hinv : AllInv g)
+    (env : Env) (henv : EnvOK g env) (args : List String)
+    (h : (runCmd log env (.sequence args)).err = none) :
+    ∃ un es g', replyOf env (.sequence args) (runCmd log env (.sequence args)) = some (.sequence un es) ∧
+      replay (runCmd log env (.sequence args)).log = .ok g' ∧
+      ∀ e ∈ es, (e ∈ g'.deps) = !un :=
+  sequence_reply log g hg hinv env henv args h
+
+/-- `list --json --all` shows every live task exactly once, described by its own record and the graph's flags; default = unfinished; `--ready` = ready list -/
+theorem C16_list_json_faithful (g : Graph) (hwf : GraphOK g) :
+    (((listJson g { showAll := true }).map (·.id)).Perm ((g.tasks.filter fun t => !t.isEpic).map (·.id)) ∧
+      ∀ i ∈ listJson g { showAll := true }, ∃ t ∈ g.tasks, t.isEpic = false ∧ i = listItem g t) ∧
+    (∀ i, i ∈ listJson g {} ↔ ∃ t ∈ g.tasks, t.isEpic = false ∧ t.st.closed = false ∧ i = listItem g t) ∧
+    (∀ i, i ∈ listJson g { readyOnly := true } ↔ ∃ t ∈ readyTasks g "", i = listItem g t) ∧
+    (∀ t, (listItem g t).ready = isReady g t ∧ (listItem g t).blocked = isBlocked g t ∧ (listItem g t).st = t.st ∧
+      (listItem g t).claimedBy = t.claimedBy) :=
+  ⟨listJson_all g hwf, listJson_default g, listJson_ready g, fun t => listItem_flags g t⟩
+
+/-- `show --json`: a pruned id is refused as pruned, a live one is shown as itself; dependencies are shown from both ends -/
+theorem C16_show_json_faithful (g : Graph) (hwf : GraphOK g) :
+    (∀ id, g.tombed id = true → showJson g id = .error (.pruned id)) ∧
+    (∀ t ∈ g.tasks, g.tombed t.id = false → ∃ o, showJson g t.id = .ok o ∧ (o = .item (showItem g t) ∨ ∃ kids, o = .epic (showItem g t) kids)) ∧
+    (∀ a b : Task, b.id ∈ (showItem g a).deps ↔ a.id ∈ (showItem g b).rdeps) ∧
+    (∀ (a : Task) d, d ∈ (showItem g a).deps ↔ (a.id, d) ∈ g.deps) :=
+  ⟨fun id h => showJson_pruned g id h, fun t ht hnt => showJson_live g hwf t ht hnt, fun a b => show_mirror g a b, fun a d => show_deps_iff g a d⟩
 
 end Ergo
